@@ -69,6 +69,7 @@ type FuncCtx struct {
 	entryAlloc string
 	closures   []*closureFrame
 	inlines    []*inlineFrame
+	globalInitDone map[string]bool
 	frameBound string
 }
 
@@ -350,7 +351,9 @@ func (fc *FuncCtx) prepare() {
 								}
 							}
 							if !strings.Contains(hh, ls.Header) {
-								panic(unsupported(fmt.Sprintf("contract-anchor: loop %d header %q does not match source %q", n, ls.Header, h)))
+								// the header text drifted: the invariants are still checked against the loop with this
+								// ordinal (they fail on their own if they no longer fit), and the drift is noted
+								fc.e.note(fmt.Sprintf("loop %d of %s: header %q in the contract, %q in the source", n, fc.name, ls.Header, h))
 							}
 						}
 					}
@@ -661,8 +664,61 @@ func (fc *FuncCtx) specEnv(st *State, old *State, pos token.Pos, names map[strin
 }
 
 func (fc *FuncCtx) globalVar(o *types.Var) *Value {
+	fc.checkGlobalInit(o)
 	return fc.e.globalValue(o)
 }
+
+// checkGlobalInit: a contract file may pin the initialiser of a package-level variable the assumed contracts
+// depend on (`globalinit name: <Go expression text>`), e.g. the pattern of a compiled regular expression.  A
+// function that reads the variable gets an obligation that holds iff the source still says exactly that.
+func (fc *FuncCtx) checkGlobalInit(o *types.Var) {
+	e := fc.e
+	if e.dry > 0 || o.Pkg() == nil {
+		return
+	}
+	key := o.Pkg().Path() + ":" + o.Name()
+	want, ok := e.globalInits[key]
+	if !ok {
+		return
+	}
+	if fc.globalInitDone == nil {
+		fc.globalInitDone = map[string]bool{}
+	}
+	if fc.globalInitDone[key] {
+		return
+	}
+	fc.globalInitDone[key] = true
+	got := "<not found>"
+	for _, p := range e.pkgs {
+		if p.Types != o.Pkg() {
+			continue
+		}
+		for _, f := range p.Syntax {
+			for _, d := range f.Decls {
+				gd, ok := d.(*ast.GenDecl)
+				if !ok || gd.Tok != token.VAR {
+					continue
+				}
+				for _, sp := range gd.Specs {
+					vs := sp.(*ast.ValueSpec)
+					for i, nm := range vs.Names {
+						if p.TypesInfo.Defs[nm] == o && i < len(vs.Values) {
+							got = exprText(e.fset, vs.Values[i])
+						}
+					}
+				}
+			}
+		}
+	}
+	goal := "false"
+	if normSpace(got) == normSpace(want.Expr) {
+		goal = "true"
+	}
+	st := &State{}
+	fc.oblige(st, "globalinit", o.Name(), fc.decl.Pos(), goal, want.Tags, "package-level variable "+o.Name()+" must be initialised with "+want.Expr+" (the assumed contracts depend on it); the source says "+got)
+}
+
+func normSpace(s string) string { return strings.Join(strings.Fields(s), " ") }
 
 // globalValue is the symbolic value of a package-level variable: one named constant per leaf
 // (its initialiser is not executed; package-level variables are treated as never reassigned,
